@@ -4,7 +4,10 @@
 
   In Layer B a read is TWO atomic actions: at `store.get` (`.getStore k` / `.refStore k`) the store is looked up and
   `hits` (or `misses`) is bumped; at `pool.add` (`.getPool k v` / `.refPool k v`) the access record is put into a
-  buffer of the pool.  Between the two the hit HAS been counted but its record is nowhere yet: the Layer A identity
+  buffer of the pool.  A MULTI-KEY read (`multi_get` and its iterators) does these two actions for each of its keys
+  (`.mgetStore k ks acc iter` / `.mgetPool k v ks acc iter`), with any interleaving between them and between keys:
+  each of its hits is in flight between ITS lookup and ITS `pool.add` and contributes exactly one record
+  (`C15_layerB_mget_hit_step`, `C15_layerB_mget_record_step`, `C15_layerB_mget_enabled`, `…_saturated_drops`).  Between the two the hit HAS been counted but its record is nowhere yet: the Layer A identity
   `hits = buffered + accessAdded + accessDropped` is FALSE at such an instant (`recB_layerA_identity_fails`);
   the identity that holds at every instant counts these reads in flight:
 
@@ -38,13 +41,14 @@ namespace B
 
 /-! ## 1  definitions -/
 
-/-- 1 for a client between `store.get` (hit) and `pool.add`, else 0 -/
+/-- 1 for a client between `store.get` (hit) and `pool.add` — of a `get`, a `get_ref`, or one key of a multi-key
+    read —, else 0 -/
 def CPc.inFlight : CPc → Nat
-  | .getPool _ _ | .refPool _ _ => 1
+  | .getPool _ _ | .refPool _ _ | .mgetPool _ _ _ _ _ => 1
   | _ => 0
 
-/-- the number of clients standing at `.getPool _ _` or `.refPool _ _`: the hit is counted, the record is not in a
-    buffer yet -/
+/-- the number of clients standing at `.getPool _ _`, `.refPool _ _` or `.mgetPool _ _ _ _ _`: the hit is counted, the
+    record is not in a buffer yet -/
 def inFlightReads (b : BState) : Nat := (b.cl.map CPc.inFlight).sum
 
 /-- the three places a record can be: still in a buffer of the pool, delivered to the consumer's channel, dropped -/
@@ -166,6 +170,21 @@ theorem recFrame_upAfter {b : BState} (b0 : BState) (i id : Nat) (uw : Option In
   · exact recFrame_set b0 i _ h1 h2 h3 rfl
   · exact recFrame_spot b0 i _ h1 h2 h3
 
+/-- where a multi-key read stands after `mgetNext`: idle (returned), or at the store lookup of its next key — in
+    neither case between a lookup and its `pool.add` -/
+theorem mgetNext_cl (b0 : BState) (i : Nat) (ks : List Nat) (acc : List (Option Nat)) (iter : Bool) :
+    ∃ pc', (mgetNext b0 i ks acc iter).cl = b0.cl.set i pc' ∧ pc'.inFlight = 0 := by
+  rcases mgetNext_spec b0 i ks acc iter with ⟨out, e⟩ | ⟨k, rest, _, _, e⟩ <;> rw [e]
+  · exact ⟨.idle, rfl, rfl⟩
+  · exact ⟨_, rfl, rfl⟩
+
+theorem recFrame_mgetNext {b : BState} (b0 : BState) (i : Nat) (ks : List Nat) (acc : List (Option Nat)) (iter : Bool)
+    (h1 : recView b0.g = recView b.g) (h2 : b0.g.cfg = b.g.cfg) (h3 : b0.cl = b.cl) :
+    RecFrame b (mgetNext b0 i ks acc iter) i := by
+  rcases mgetNext_spec b0 i ks acc iter with ⟨out, e⟩ | ⟨k, rest, _, _, e⟩ <;> rw [e]
+  · exact recFrame_finish b0 i _ h1 h2 h3
+  · exact recFrame_set b0 i _ h1 h2 h3 rfl
+
 /-- What one action of client `i` is, position by position: the two actions of a read and `shutdown.stats_clear`
     exactly, every other one up to `RecFrame`. -/
 def ClientSpec (b : BState) (i : Nat) (o : Oracle) (b' : BState) (o' : Oracle) : CPc → Prop
@@ -187,6 +206,16 @@ def ClientSpec (b : BState) (i : Nat) (o : Oracle) (b' : BState) (o' : Oracle) :
   | .refPool k v =>
     ∃ g1, poolAdd b.g (b.g.cfg.hashOf k) o = .ok (g1, o') ∧
       b' = finishCall { b with g := g1, storeReaders := b.storeReaders.filter (fun p => p.1 != i) } i (.value (some v))
+  | .mgetStore k ks acc iter =>
+    o' = o ∧
+    ((∃ e, b.g.store.get? k = some e ∧ e.alive b.g.now = true ∧
+        b' = setClient { b with g := { b.g with stats := { b.g.stats with hits := b.g.stats.hits + 1 } } } i
+               (.mgetPool k e.value ks acc iter)) ∨
+     ((∀ e, b.g.store.get? k = some e → e.alive b.g.now = false) ∧
+        b' = mgetNext { b with g := { b.g with stats := { b.g.stats with misses := b.g.stats.misses + 1 } } } i ks
+               (acc ++ [none]) iter))
+  | .mgetPool k v ks acc iter =>
+    ∃ g1, poolAdd b.g (b.g.cfg.hashOf k) o = .ok (g1, o') ∧ b' = mgetNext { b with g := g1 } i ks (acc ++ [some v]) iter
   | .shutStatsClear => o' = o ∧ b' = setClient { b with g := { b.g with stats := {} } } i .shutTtlClear
   | _ => RecFrame b b' i
 
@@ -213,6 +242,7 @@ theorem recB_clientAct {b b' : BState} {i : Nat} {o o' : Oracle} (h : clientAct 
           · exact recFrame_finish b i _ rfl rfl rfl
           · exact recFrame_set b i _ rfl rfl rfl rfl
         all_goals simp only [Except.ok.injEq, Prod.mk.injEq] at h; obtain ⟨rfl, rfl⟩ := h
+        case mget ks iter => exact recFrame_mgetNext b i ks [] iter rfl rfl rfl
         all_goals exact recFrame_set b i _ rfl rfl rfl rfl
     | putPresent k v w ttl =>
       simp only [] at h
@@ -406,6 +436,31 @@ theorem recB_clientAct {b b' : BState} {i : Nat} {o o' : Oracle} (h : clientAct 
       · cases h
       · simp only [Except.ok.injEq, Prod.mk.injEq] at h; obtain ⟨rfl, rfl⟩ := h
         exact recFrame_finish _ i _ rfl rfl rfl
+    | mgetStore k ks acc iter =>
+      simp only [] at h
+      split at h
+      · rename_i e he
+        split at h
+        all_goals simp only [Except.ok.injEq, Prod.mk.injEq] at h; obtain ⟨rfl, rfl⟩ := h
+        · rename_i ha
+          exact ⟨rfl, Or.inl ⟨e, he, ha, rfl⟩⟩
+        · rename_i ha
+          refine ⟨rfl, Or.inr ⟨?_, rfl⟩⟩
+          intro e' he'
+          rw [he] at he'; cases he'
+          simpa using ha
+      · rename_i he
+        simp only [Except.ok.injEq, Prod.mk.injEq] at h; obtain ⟨rfl, rfl⟩ := h
+        refine ⟨rfl, Or.inr ⟨?_, rfl⟩⟩
+        intro e' he'
+        rw [he] at he'; cases he'
+    | mgetPool k v ks acc iter =>
+      simp only [] at h
+      split at h
+      · rename_i g1 o1 hp
+        simp only [Except.ok.injEq, Prod.mk.injEq] at h; obtain ⟨rfl, rfl⟩ := h
+        exact ⟨g1, hp, rfl⟩
+      · cases h
 
 /-! ## 4  one step, in numbers -/
 
@@ -498,13 +553,64 @@ theorem recB_record_core {b b' : BState} {i k v : Nat} {o o' : Oracle} (ref : Bo
     obtain ⟨g1, hp, rfl⟩ := hspec
     exact ⟨hp, rfl, rfl, key g1 hp rfl rfl⟩
 
+/-- the lookup action for one key of a multi-key read, exactly: a hit is counted and the read moves on to `pool.add`
+    (one more read in flight); a miss is counted and the read moves on to its next key or returns -/
+theorem recB_mhit_core {b b' : BState} {i k : Nat} {ks : List Nat} {acc : List (Option Nat)} {iter : Bool}
+    {o o' : Oracle} (hpc : b.cl[i]? = some (.mgetStore k ks acc iter)) (h : stepB b (.client i) o = .ok (b', o')) :
+    o' = o ∧
+    ((∃ e, b.g.store.get? k = some e ∧ e.alive b.g.now = true ∧
+        b'.g = { b.g with stats := { b.g.stats with hits := b.g.stats.hits + 1 } } ∧
+        b'.cl = b.cl.set i (.mgetPool k e.value ks acc iter) ∧ b'.res = b.res ∧ RecStep b b' 1 0 0 0 1 0) ∨
+     ((∀ e, b.g.store.get? k = some e → e.alive b.g.now = false) ∧
+        b'.g = { b.g with stats := { b.g.stats with misses := b.g.stats.misses + 1 } } ∧
+        b' = mgetNext { b with g := { b.g with stats := { b.g.stats with misses := b.g.stats.misses + 1 } } } i ks
+               (acc ++ [none]) iter ∧
+        RecStep b b' 0 1 0 0 0 0)) := by
+  obtain ⟨pc, hpc', hspec⟩ := recB_clientAct h
+  rw [hpc] at hpc'
+  simp only [Option.some.injEq] at hpc'
+  subst hpc'
+  simp only [ClientSpec] at hspec
+  obtain ⟨rfl, ⟨e, he, ha, rfl⟩ | ⟨hno, rfl⟩⟩ := hspec
+  · exact ⟨rfl, Or.inl ⟨e, he, ha, rfl, rfl, rfl, rfl, rfl, rfl,
+      recB_inFlight_set (pc' := .mgetPool k e.value ks acc iter) hpc rfl, rfl, rfl, rfl⟩⟩
+  · obtain ⟨pc', hcl, h0⟩ := mgetNext_cl
+      { b with g := { b.g with stats := { b.g.stats with misses := b.g.stats.misses + 1 } } } i ks (acc ++ [none]) iter
+    have hf := recB_inFlight_set hpc hcl
+    rw [h0] at hf
+    refine ⟨rfl, Or.inr ⟨hno, by rw [mgetNext_g], rfl, ?_⟩⟩
+    refine ⟨?_, ?_, ?_, hf, ?_, ?_, ?_⟩ <;> rw [mgetNext_g] <;> rfl
+
+/-- the `pool.add` action for one hit of a multi-key read, exactly: ONE record, one read in flight less; then on to
+    the next key (or the call returns) -/
+theorem recB_mrecord_core {b b' : BState} {i k v : Nat} {ks : List Nat} {acc : List (Option Nat)} {iter : Bool}
+    {o o' : Oracle} (hpc : b.cl[i]? = some (.mgetPool k v ks acc iter)) (h : stepB b (.client i) o = .ok (b', o')) :
+    poolAdd b.g (b.g.cfg.hashOf k) o = .ok (b'.g, o') ∧
+      b' = mgetNext { b with g := b'.g } i ks (acc ++ [some v]) iter ∧ RecStep b b' 0 0 1 1 0 0 := by
+  obtain ⟨pc, hpc', hspec⟩ := recB_clientAct h
+  rw [hpc] at hpc'
+  simp only [Option.some.injEq] at hpc'
+  subst hpc'
+  simp only [ClientSpec] at hspec
+  obtain ⟨g1, hp, rfl⟩ := hspec
+  have hg : (mgetNext { b with g := g1 } i ks (acc ++ [some v]) iter).g = g1 := by rw [mgetNext_g]
+  obtain ⟨pc', hcl, h0⟩ := mgetNext_cl { b with g := g1 } i ks (acc ++ [some v]) iter
+  have hf := recB_inFlight_set hpc hcl
+  rw [h0] at hf
+  have a := poolAdd_step hp
+  have he := a.env
+  simp only [envView, Prod.mk.injEq] at he
+  rw [← hg] at a he
+  refine ⟨by rw [hg]; exact hp, by rw [hg], a.hits, a.misses, a.total, ?_, a.queued, a.pool, he.1⟩
+  exact hf
+
 /-- the only action that breaks the identity: `shutdown.stats_clear` (it zeroes the counters, the buffers keep
     their records) -/
 def IsStatsClear (b : BState) (a : Act) : Prop := ∃ i, a = .client i ∧ b.cl[i]? = some .shutStatsClear
 
-/-- the four positions of a read -/
+/-- the positions of a read: the lookup and `pool.add` of `get`, of `get_ref`, and of each key of a multi-key read -/
 def CPc.isReadPc : CPc → Bool
-  | .getStore _ | .refStore _ | .getPool _ _ | .refPool _ _ => true
+  | .getStore _ | .refStore _ | .getPool _ _ | .refPool _ _ | .mgetStore _ _ _ _ | .mgetPool _ _ _ _ _ => true
   | _ => false
 
 /-- the action is one of the two actions of a read: the lookup or `pool.add` -/
@@ -540,6 +646,8 @@ theorem recB_other_step {b b' : BState} {a : Act} {o o' : Oracle} (h : stepB b a
     | refStore k => exact absurd ⟨i, _, rfl, hpc, rfl⟩ hr
     | getPool k v => exact absurd ⟨i, _, rfl, hpc, rfl⟩ hr
     | refPool k v => exact absurd ⟨i, _, rfl, hpc, rfl⟩ hr
+    | mgetStore k ks acc iter => exact absurd ⟨i, _, rfl, hpc, rfl⟩ hr
+    | mgetPool k v ks acc iter => exact absurd ⟨i, _, rfl, hpc, rfl⟩ hr
     | shutStatsClear => exact absurd ⟨i, rfl, hpc⟩ hn
     | _ =>
       obtain ⟨hv, hc, pc', hcl, h0⟩ := hspec
@@ -592,6 +700,11 @@ theorem recB_any_step {b b' : BState} {a : Act} {o o' : Oracle} (h : stepB b a o
       · exact ⟨_, _, _, _, _, hs, rfl⟩
     | getPool k v => exact ⟨_, _, _, _, _, (recB_record_core false (k := k) (v := v) hpc h).2.2.2, rfl⟩
     | refPool k v => exact ⟨_, _, _, _, _, (recB_record_core true (k := k) (v := v) hpc h).2.2.2, rfl⟩
+    | mgetStore k ks acc iter =>
+      obtain ⟨_, ⟨_, _, _, _, _, _, hs⟩ | ⟨_, _, _, hs⟩⟩ := recB_mhit_core hpc h
+      · exact ⟨_, _, _, _, _, hs, rfl⟩
+      · exact ⟨_, _, _, _, _, hs, rfl⟩
+    | mgetPool k v ks acc iter => exact ⟨_, _, _, _, _, (recB_mrecord_core hpc h).2.2, rfl⟩
     | _ => cases hread
   · exact ⟨_, _, _, _, _, recB_other_step h hn hr, rfl⟩
 
@@ -869,6 +982,66 @@ theorem C15_layerB_record_step {b b' : BState} {i k v : Nat} {o o' : Oracle} (re
     by omega⟩
   rw [hpool, List.getElem?_set_self hlt]
 
+/-- The lookup action for ONE KEY of a multi-key read (`multi_get` or an iterator), for every state and oracle —
+    running or not: EITHER a hit: `hits` moves by exactly 1, nothing else of the record quantities changes, no record
+    exists yet, the client moves on to `pool.add` carrying the value, the results so far and the keys to come (one
+    more read in flight); OR a miss: `misses` moves by exactly 1, `none` is appended to the results and the read moves
+    on (`mgetNext`: next key, or return) — no read in flight. -/
+theorem C15_layerB_mget_hit_step {b b' : BState} {i k : Nat} {ks : List Nat} {acc : List (Option Nat)} {iter : Bool}
+    {o o' : Oracle} (hpc : b.cl[i]? = some (.mgetStore k ks acc iter)) (h : stepB b (.client i) o = .ok (b', o')) :
+    (∃ e, b.g.store.get? k = some e ∧ e.alive b.g.now = true ∧
+       b'.g.stats.hits = b.g.stats.hits + 1 ∧ b'.g.stats.misses = b.g.stats.misses ∧
+       b'.g.pool = b.g.pool ∧ b'.g.bufq = b.g.bufq ∧
+       b'.g.stats.accessAdded = b.g.stats.accessAdded ∧ b'.g.stats.accessDropped = b.g.stats.accessDropped ∧
+       b'.cl = b.cl.set i (.mgetPool k e.value ks acc iter) ∧ b'.res = b.res ∧
+       inFlightReads b' = inFlightReads b + 1 ∧ o' = o) ∨
+    ((∀ e, b.g.store.get? k = some e → e.alive b.g.now = false) ∧
+       b'.g.stats.hits = b.g.stats.hits ∧ b'.g.stats.misses = b.g.stats.misses + 1 ∧
+       b'.g.pool = b.g.pool ∧ b'.g.bufq = b.g.bufq ∧
+       b'.g.stats.accessAdded = b.g.stats.accessAdded ∧ b'.g.stats.accessDropped = b.g.stats.accessDropped ∧
+       b' = mgetNext { b with g := { b.g with stats := { b.g.stats with misses := b.g.stats.misses + 1 } } } i ks
+              (acc ++ [none]) iter ∧
+       inFlightReads b' = inFlightReads b ∧ o' = o) := by
+  obtain ⟨ho, ⟨e, he, ha, hg, hcl, hres, hs⟩ | ⟨hno, hg, hb', hs⟩⟩ := recB_mhit_core hpc h
+  · have hf := hs.flight
+    exact Or.inl ⟨e, he, ha, by rw [hg], by rw [hg], by rw [hg], by rw [hg], by rw [hg], by rw [hg], hcl, hres,
+      by omega, ho⟩
+  · have hf := hs.flight
+    exact Or.inr ⟨hno, by rw [hg], by rw [hg], by rw [hg], by rw [hg], by rw [hg], by rw [hg], hb',
+      by omega, ho⟩
+
+/-- The `pool.add` action for one hit of a multi-key read, for every state and oracle: EXACTLY ONE record — `hits`
+    and `misses` untouched, `buffered + accessAdded + accessDropped` grows by exactly 1, the record is the key's hash
+    at the END of the buffer the oracle chose (after that buffer, if full, was handed over whole) —, the value picked
+    up at the lookup is appended to the results, one read in flight less, and the read moves on (`mgetNext`). -/
+theorem C15_layerB_mget_record_step {b b' : BState} {i k v : Nat} {ks : List Nat} {acc : List (Option Nat)}
+    {iter : Bool} {o o' : Oracle} (hpc : b.cl[i]? = some (.mgetPool k v ks acc iter))
+    (h : stepB b (.client i) o = .ok (b', o')) :
+    ∃ idx rest buf, o.pool = idx :: rest ∧ b.g.pool[idx]? = some buf ∧ o' = { o with pool := rest } ∧
+      b'.g.stats.hits = b.g.stats.hits ∧ b'.g.stats.misses = b.g.stats.misses ∧
+      buffered b'.g + b'.g.stats.accessAdded + b'.g.stats.accessDropped =
+        buffered b.g + b.g.stats.accessAdded + b.g.stats.accessDropped + 1 ∧
+      b'.g.pool = b.g.pool.set idx ((if buf.length ≥ b.g.cfg.bufSize then [] else buf) ++ [b.g.cfg.hashOf k]) ∧
+      b'.g.pool[idx]? = some ((if buf.length ≥ b.g.cfg.bufSize then [] else buf) ++ [b.g.cfg.hashOf k]) ∧
+      b' = mgetNext { b with g := b'.g } i ks (acc ++ [some v]) iter ∧
+      inFlightReads b' + 1 = inFlightReads b := by
+  obtain ⟨hp, hb', hs⟩ := recB_mrecord_core hpc h
+  obtain ⟨idx, rest, buf, ho, hb, ho', hcase⟩ := recB_poolAdd_spec hp
+  have hlt : idx < b.g.pool.length := by
+    rcases Nat.lt_or_ge idx b.g.pool.length with h' | h'
+    · exact h'
+    · rw [List.getElem?_eq_none h'] at hb; cases hb
+  have hpool : b'.g.pool = b.g.pool.set idx ((if buf.length ≥ b.g.cfg.bufSize then [] else buf) ++ [b.g.cfg.hashOf k]) := by
+    rcases hcase with ⟨hlt', hg⟩ | ⟨hge, hg⟩
+    · rw [hg, if_neg (by omega)]
+    · rw [hg, if_pos hge]; rfl
+  have ht := hs.total
+  have hf := hs.flight
+  unfold recorded at ht
+  refine ⟨idx, rest, buf, ho, hb, ho', by have := hs.hits; omega, by have := hs.misses; omega, ht, hpool, ?_, hb',
+    by omega⟩
+  rw [hpool, List.getElem?_set_self hlt]
+
 /-- Every action that is not one of the two actions of a read — the worker's, the sweeper's, the consumer's, a
     client's at any other position (issuing and starting a request included), the clock — leaves `hits`, `misses`,
     `buffered + accessAdded + accessDropped` and the number of reads in flight alone; the single exception is
@@ -966,6 +1139,62 @@ theorem C15_layerB_read_enabled_reach {cfg : Cfg} {now : Nat} {seeds : List Nat}
       b'.res = b.res.set i (.value (some v) :: b.res.getD i []) :=
   (C15_layerB_read_enabled (b := b) (i := i) (k := k) ref).2.2 v hpc o idx rest ho (by rw [recB_pool_length hr]; exact hidx)
 
+/-- Every action of a multi-key read is enabled, whatever every other thread is doing and whoever owns whichever
+    lock (no hypothesis on `b.w`, `b.sw`, the locks, the guards, `bufq`, `consumerAlive`, `shutting`):
+    the first action and every lookup for EVERY oracle (none is consumed); every `pool.add` for every oracle whose
+    head pool index names a buffer — after it the read stands at its next key or has returned. -/
+theorem C15_layerB_mget_enabled {b : BState} {i : Nat} :
+    (∀ ks iter, b.cl[i]? = some (.start (.mget ks iter)) → ∀ o, ∃ b', stepB b (.client i) o = .ok (b', o)) ∧
+    (∀ k ks acc iter, b.cl[i]? = some (.mgetStore k ks acc iter) → ∀ o, ∃ b', stepB b (.client i) o = .ok (b', o)) ∧
+    (∀ k v ks acc iter, b.cl[i]? = some (.mgetPool k v ks acc iter) → ∀ (o : Oracle) (idx : Nat) (rest : List Nat),
+      o.pool = idx :: rest → idx < b.g.pool.length →
+      ∃ b', stepB b (.client i) o = .ok (b', { o with pool := rest }) ∧
+        b' = mgetNext { b with g := b'.g } i ks (acc ++ [some v]) iter) := by
+  refine ⟨?_, ?_, ?_⟩
+  · intro ks iter hpc o
+    simp only [stepB, clientAct, hpc]
+    split <;> exact ⟨_, rfl⟩
+  · intro k ks acc iter hpc o
+    simp only [stepB, clientAct, hpc]
+    split
+    · split <;> exact ⟨_, rfl⟩
+    · exact ⟨_, rfl⟩
+  · intro k v ks acc iter hpc o idx rest ho hidx
+    have hp : ∃ g1, poolAdd b.g (b.g.cfg.hashOf k) o = .ok (g1, { o with pool := rest }) := by
+      unfold poolAdd
+      simp only [ho, List.getElem?_eq_getElem hidx]
+      exact ⟨_, rfl⟩
+    obtain ⟨g1, hp⟩ := hp
+    simp only [stepB, clientAct, hpc, hp]
+    exact ⟨_, rfl, by rw [mgetNext_g]⟩
+
+/-- The enabledness condition of the `pool.add` of a multi-key read, precisely: the oracle's head pool index names a
+    buffer.  Nothing else. -/
+theorem C15_layerB_mget_record_enabled_iff {b : BState} {i k v : Nat} {ks : List Nat} {acc : List (Option Nat)}
+    {iter : Bool} (hpc : b.cl[i]? = some (.mgetPool k v ks acc iter)) (o : Oracle) :
+    (∃ r, stepB b (.client i) o = .ok r) ↔ ∃ idx rest, o.pool = idx :: rest ∧ idx < b.g.pool.length := by
+  constructor
+  · rintro ⟨⟨b', o'⟩, h⟩
+    obtain ⟨idx, rest, buf, ho, hb, _⟩ := C15_layerB_mget_record_step hpc h
+    refine ⟨idx, rest, ho, ?_⟩
+    rcases Nat.lt_or_ge idx b.g.pool.length with h' | h'
+    · exact h'
+    · rw [List.getElem?_eq_none h'] at hb; cases hb
+  · rintro ⟨idx, rest, ho, hidx⟩
+    obtain ⟨b', h, _⟩ := (C15_layerB_mget_enabled (b := b) (i := i)).2.2 k v ks acc iter hpc o idx rest ho hidx
+    exact ⟨_, h⟩
+
+/-- At every reachable state — running, shutting down or shut down — a hit of a multi-key read between its lookup
+    and `pool.add` can go on for every oracle that picks one of the `cfg.poolSize` buffers. -/
+theorem C15_layerB_mget_enabled_reach {cfg : Cfg} {now : Nat} {seeds : List Nat} {clients : Nat} {b : BState}
+    (hr : Reach cfg now seeds clients b) {i k v : Nat} {ks : List Nat} {acc : List (Option Nat)} {iter : Bool}
+    (hpc : b.cl[i]? = some (.mgetPool k v ks acc iter))
+    (o : Oracle) {idx : Nat} {rest : List Nat} (ho : o.pool = idx :: rest) (hidx : idx < cfg.poolSize) :
+    ∃ b', stepB b (.client i) o = .ok (b', { o with pool := rest }) ∧
+      b' = mgetNext { b with g := b'.g } i ks (acc ++ [some v]) iter :=
+  (C15_layerB_mget_enabled (b := b) (i := i)).2.2 k v ks acc iter hpc o idx rest ho
+    (by rw [recB_pool_length hr]; exact hidx)
+
 /-! ## 8  C15 (4): a saturated or dead consumer — the full buffer is dropped whole, and counted -/
 
 theorem recB_acceptBuffer_sat (g : State) (buf : List Nat)
@@ -1030,6 +1259,60 @@ theorem C15_layerB_room_delivers {b b' : BState} {i k v : Nat} {o o' : Oracle} (
     b'.g.stats.accessDropped = b.g.stats.accessDropped ∧ b'.g.bufq = b.g.bufq ++ [.full buf] ∧
     b'.g.pool = b.g.pool.set idx [b.g.cfg.hashOf k] := by
   obtain ⟨hp, _, _, _⟩ := recB_record_core ref hpc h
+  obtain ⟨idx', rest', buf', ho', hb', _, hcase⟩ := recB_poolAdd_spec hp
+  rw [ho] at ho'
+  simp only [List.cons.injEq] at ho'
+  obtain ⟨rfl, rfl⟩ := ho'
+  rw [hb] at hb'
+  simp only [Option.some.injEq] at hb'
+  subst hb'
+  rcases hcase with ⟨hlt', _⟩ | ⟨_, hg⟩
+  · omega
+  · rw [recB_acceptBuffer_room b.g buf hroom halive] at hg
+    exact ⟨by rw [hg], by rw [hg], by rw [hg], by rw [hg]⟩
+
+/-- The same for the `pool.add` of a multi-key read: chosen buffer full and the channel full or the consumer gone — the
+    read GOES ON (`mgetNext`), the buffer is dropped whole and counted. -/
+theorem C15_layerB_mget_saturated_drops {b b' : BState} {i k v : Nat} {ks : List Nat} {acc : List (Option Nat)}
+    {iter : Bool} {o o' : Oracle}
+    (hpc : b.cl[i]? = some (.mgetPool k v ks acc iter)) (h : stepB b (.client i) o = .ok (b', o'))
+    {idx : Nat} {rest buf : List Nat} (ho : o.pool = idx :: rest) (hb : b.g.pool[idx]? = some buf)
+    (hfull : buf.length ≥ b.g.cfg.bufSize)
+    (hsat : b.g.bufq.length ≥ b.g.cfg.bufChanCap ∨ b.g.consumerAlive = false) :
+    b'.g.stats.accessDropped = b.g.stats.accessDropped + buf.length ∧
+    b'.g.stats.accessAdded = b.g.stats.accessAdded ∧ b'.g.bufq = b.g.bufq ∧
+    b'.g.pool[idx]? = some [b.g.cfg.hashOf k] ∧ b'.g.pool = b.g.pool.set idx [b.g.cfg.hashOf k] ∧
+    b'.g.stats.hits = b.g.stats.hits ∧ b' = mgetNext { b with g := b'.g } i ks (acc ++ [some v]) iter := by
+  obtain ⟨hp, hb', hs⟩ := recB_mrecord_core hpc h
+  obtain ⟨idx', rest', buf', ho', hb'', _, hcase⟩ := recB_poolAdd_spec hp
+  rw [ho] at ho'
+  simp only [List.cons.injEq] at ho'
+  obtain ⟨rfl, rfl⟩ := ho'
+  rw [hb] at hb''
+  simp only [Option.some.injEq] at hb''
+  subst hb''
+  have hlt : idx < b.g.pool.length := by
+    rcases Nat.lt_or_ge idx b.g.pool.length with h' | h'
+    · exact h'
+    · rw [List.getElem?_eq_none h'] at hb; cases hb
+  rcases hcase with ⟨hlt', _⟩ | ⟨_, hg⟩
+  · omega
+  · rw [recB_acceptBuffer_sat b.g buf hsat] at hg
+    refine ⟨by rw [hg], by rw [hg], by rw [hg], ?_, by rw [hg], by rw [hg], hb'⟩
+    rw [hg]
+    exact List.getElem?_set_self hlt
+
+/-- … and with room in the channel and a live consumer the full buffer is DELIVERED whole. -/
+theorem C15_layerB_mget_room_delivers {b b' : BState} {i k v : Nat} {ks : List Nat} {acc : List (Option Nat)}
+    {iter : Bool} {o o' : Oracle}
+    (hpc : b.cl[i]? = some (.mgetPool k v ks acc iter)) (h : stepB b (.client i) o = .ok (b', o'))
+    {idx : Nat} {rest buf : List Nat} (ho : o.pool = idx :: rest) (hb : b.g.pool[idx]? = some buf)
+    (hfull : buf.length ≥ b.g.cfg.bufSize)
+    (hroom : b.g.bufq.length < b.g.cfg.bufChanCap) (halive : b.g.consumerAlive = true) :
+    b'.g.stats.accessAdded = b.g.stats.accessAdded + buf.length ∧
+    b'.g.stats.accessDropped = b.g.stats.accessDropped ∧ b'.g.bufq = b.g.bufq ++ [.full buf] ∧
+    b'.g.pool = b.g.pool.set idx [b.g.cfg.hashOf k] := by
+  obtain ⟨hp, _, _⟩ := recB_mrecord_core hpc h
   obtain ⟨idx', rest', buf', ho', hb', _, hcase⟩ := recB_poolAdd_spec hp
   rw [ho] at ho'
   simp only [List.cons.injEq] at ho'
@@ -1110,6 +1393,50 @@ example : recRun (putRun ++ lookupRun 1 (.get 2)) = some [0, 1, 0, 0, 0, 0, 0] :
 /-- the consumer takes the queued batch (one `add_if_missing` answer), then a fourth read is delivered again -/
 example : recRun (putRun ++ readRun 1 (.get 1) ++ readRun 0 (.getRef 1) ++ readRun 1 (.get 1) ++
     [(.consumer, { dkAdd := [true] })] ++ readRun 0 (.get 1)) = some [4, 0, 1, 2, 1, 0, 1] := by decide
+
+/-- a `multi_get([1, 2, 1])` of client 1 after the lookup of its first key (a hit): counted, in flight, no record -/
+example : recRun (putRun ++ call 1 (.mget [1, 2, 1] false) 2) = some [1, 0, 0, 0, 0, 1, 0] := by decide
+/-- … after that hit's `pool.add`: ONE record buffered, nothing in flight; the read stands at key 2 -/
+example : recRun (putRun ++ call 1 (.mget [1, 2, 1] false) 2 ++ [(.client 1, { pool := [0] })]) =
+    some [1, 0, 1, 0, 0, 0, 0] := by decide
+/-- … a `get` of client 0 interleaved between the keys (its hit in flight), then key 2 (a miss) and the lookup of the
+    third key (a hit again): two reads in flight at once, one of them a multi-key read -/
+example : recRun (putRun ++ call 1 (.mget [1, 2, 1] false) 2 ++ [(.client 1, { pool := [0] })] ++
+    lookupRun 0 (.get 1) ++ [(.client 1, noO), (.client 1, noO)]) = some [3, 1, 1, 0, 0, 2, 0] := by decide
+/-- … the whole interleaving to its end: three hits, three records (one buffered, one delivered, one dropped with the
+    channel full), one miss; every hit exactly one record -/
+example : recRun (putRun ++ call 1 (.mget [1, 2, 1] false) 2 ++ [(.client 1, { pool := [0] })] ++
+    lookupRun 0 (.get 1) ++ [(.client 1, noO), (.client 1, noO), (.client 0, { pool := [0] }),
+      (.client 1, { pool := [0] })]) = some [3, 1, 1, 1, 1, 0, 1] := by decide
+
+/-- hypotheses of `C15_layerB_mget_hit_step` / `C15_layerB_mget_record_step` / `C15_layerB_mget_saturated_drops`
+    (reachable, running): client 1 stands at the lookup of key 1 of a multi-key read, then at its `pool.add` with the
+    chosen buffer full and the channel full; the action is enabled and the read goes on to key 2 -/
+example :
+    (match runB initRec (putRun ++ readRun 1 (.get 1) ++ readRun 0 (.getRef 1) ++ call 1 (.mget [1, 2] true) 1) with
+     | .ok b =>
+       (match b.cl[1]? with
+        | some (CPc.mgetStore k ks acc iter) => decide (k = 1 ∧ ks = [2] ∧ acc = [] ∧ iter = true)
+        | _ => false) &&
+       (match stepB b (.client 1) noO with
+        | .ok (b1, _) =>
+          (match b1.cl[1]? with
+           | some (CPc.mgetPool k v ks acc iter) => decide (k = 1 ∧ v = 100 ∧ ks = [2] ∧ acc = [] ∧ iter = true)
+           | _ => false) &&
+          decide (b1.g.stats.hits = b.g.stats.hits + 1 ∧ inFlightReads b1 = inFlightReads b + 1 ∧
+                  b1.g.pool[0]? = some [1] ∧ ([1] : List Nat).length ≥ b1.g.cfg.bufSize ∧
+                  b1.g.bufq.length ≥ b1.g.cfg.bufChanCap ∧ b1.g.shutting = false) &&
+          (match stepB b1 (.client 1) { pool := [0] } with
+           | .ok (b2, _) =>
+             (match b2.cl[1]? with
+              | some (CPc.mgetStore k ks acc iter) => decide (k = 2 ∧ ks = [] ∧ acc = [some 100] ∧ iter = true)
+              | _ => false) &&
+             decide (b2.g.stats.accessDropped = b1.g.stats.accessDropped + 1 ∧ b2.g.pool[0]? = some [1] ∧
+                     inFlightReads b2 + 1 = inFlightReads b1)
+           | _ => false) &&
+          (match stepB b1 (.client 1) noO with | .error _ => true | _ => false)
+        | _ => false)
+     | _ => false) = true := by decide
 
 /-- **At action granularity the Layer A identity is FALSE**: a reachable, running state with one read in flight at
     which `hits ≠ buffered + accessAdded + accessDropped` — while `RecInv` holds there (`C15_layerB_conservation`
